@@ -1,14 +1,14 @@
 """C12 - dispatch_time arithmetic is monotone, clock-preserving and saturating.
 
 Spec: spec/Time.tla (part 1: transcription of dispatch_time / dispatch_walltime /
-_dispatch_timeout / encode / decode, parametric in the word width W; part 2: the REFERENCE
-meaning the property states), spec/TimeMC.tla (the laws as invariants over one state per
+_dispatch_timeout / _dispatch_time_nanoseconds_since_epoch / encode / decode, parametric in the
+word width W; part 2: the REFERENCE meaning the property states), spec/TimeMC.tla (the laws as invariants over one state per
 input tuple), spec/TimeEmit.tla (test-vector emission).
 
 (A) TLC, W=8, exhaustive: every (base, delta) pair x 4 `now`s, every tv_sec x delta x several
     tv_nsec: the REPAIRED algorithm meets the reference (Conforms, Monotone, Absorbing,
-    PastNoBlock, ...); the PINNED algorithm deviates, and every deviation lies in one of five
-    named input classes (ConformsOrKnown), each of which really contains a deviation (read off
+    PastNoBlock, PastNoBlockEpoch, EpochDeadline ...); the PINNED algorithm deviates, and every
+    deviation lies in one of six named input classes (ConformsOrKnown, EpochDeadlineOrKnown), each of which really contains a deviation (read off
     the `dev` column of the table TLC emits; thorough: NoDev_<class> must be violated as well).
     Spec mutants must be refuted (non-vacuity).  One leaf state per input tuple; the leaves
     are checked but not stored (CONSTRAINT Prefix).
@@ -31,7 +31,20 @@ input tuple), spec/TimeEmit.tla (test-vector emission).
           Apalache computed for the transcription (or meet the reference if repaired);
     (iv)  the reference evaluated as oracle on >= 10^6 seeded random 64-bit inputs biased to
           the landmarks, with the laws (L1 conformance, L2 monotone on (delta, delta+1) pairs,
-          L4 past => zero timeout, underflow result does not block).
+          L4 past => zero timeout, underflow result does not block, L4'' deadline law).
+    (v)   "does not block" where the wait is converted to an ABSOLUTE deadline: on this platform
+          (POSIX semaphores) a timed dispatch_semaphore_wait hands
+          _dispatch_time_nanoseconds_since_epoch(t) to sem_timedwait (CLOCK_REALTIME).  That
+          function is transcribed (NanosSinceEpochF), its law is RefDeadlineOK (a time that has
+          elapsed on its OWN clock gets a deadline <= now.wall; a pending one a deadline exactly
+          as far from now.wall as the time is from its own now; FOREVER stays FOREVER), checked
+          by TLC (W=8, all words) and Apalache (W=64), and the real function is called on the
+          emitted vectors (fn = 4) like the others.  End to end (driver mode `semwait`, real
+          clocks): dispatch_semaphore_wait(sema, t) on a semaphore of value 0 for t = 1 s in the
+          past and t = 50 ms ahead on each clock (uptime, wall via dispatch_walltime(NULL) and
+          via DISPATCH_WALLTIME_NOW, monotonic) must return non-zero, not before t has elapsed
+          on its own clock (10 ms tolerated), and within 5 s; "still blocked after 5 s" is the
+          failing history.
 
 Scope decisions (the property quantifies over all 2^64 base words, all timespecs, all deltas):
   * Hand-built base words that denote no finite time (uptime words with top bits 01, the wall
@@ -59,9 +72,11 @@ from concurrent.futures import ThreadPoolExecutor
 from vlib import *
 
 PROP = "C12"
-CLASSES = ["dt_sum_eq_max", "dt_wall_sum_eq_1", "wt_int64_overflow", "wt_unsaturated", "wt_past_nonneg_delta"]
-MUTANTS = ["no_range_check", "wall_as_mono", "timeout_noclamp", "underflow_forever"]   # quick: the first three
-FNID = {"time": 0, "walltime": 1, "walltime_null": 2, "timeout": 3}
+CLASSES = ["dt_sum_eq_max", "dt_wall_sum_eq_1", "wt_int64_overflow", "wt_unsaturated", "wt_past_nonneg_delta",
+           "epoch_mono"]
+MUTANTS = ["no_range_check", "wall_as_mono", "timeout_noclamp", "epoch_relative", "underflow_forever"]   # quick: the first four
+NQUICK_MUT = 4
+FNID = {"time": 0, "walltime": 1, "walltime_null": 2, "timeout": 3, "epoch": 4}
 
 
 def _cfg(base, name, **subst):
@@ -185,14 +200,17 @@ def model(v, tier):
     A("fixed_wall", "Time_apa_fixed.cfg", "InitFullWall", "Conforms Monotone UnderflowNoBlock")
     A("fixed_time", "Time_apa_fixed.cfg", "InitFullTime", "Conforms Monotone Absorbing UnderflowNoBlock")
     A("fixed_timeout", "Time_apa_fixed.cfg", "InitFullTimeout", "PastNoBlock TimeoutExact")
+    A("fixed_epoch", "Time_apa_fixed.cfg", "InitFullEpoch", "PastNoBlockEpoch EpochDeadline")
     if tier == "thorough":
         # the pinned algorithm deviates only inside the named classes, at full width too (inside the
         # class wt_int64_overflow the *OrKnown invariants hold by definition, hence the restricted Init)
         A("pinned_time", "Time_apa_pinned.cfg", "InitFullTime", "ConformsOrKnown MonotoneOrKnown Absorbing UnderflowNoBlockOrKnown")
         A("pinned_wall", "Time_apa_pinned.cfg", "InitFullWallNoOverflow", "ConformsOrKnown MonotoneOrKnown UnderflowNoBlockOrKnown")
+        A("pinned_epoch", "Time_apa_pinned.cfg", "InitFullEpoch", "PastNoBlockEpochOrKnown EpochDeadlineOrKnown")
     # one W=64 counterexample per known class
     A("witness_time", "Time_apa_pinned.cfg", "InitFullTime", "NoDevAny", ("--view=ClassView", "--max-error=2"))
     A("witness_wall", "Time_apa_pinned.cfg", "InitFullWall", "NoDevAny", ("--view=ClassView", "--max-error=3"))
+    A("witness_epoch", "Time_apa_pinned.cfg", "InitFullEpoch", "NoDevAny", ("--view=ClassView", "--max-error=1"))
 
     # (A) the two exhaustive W=8 runs
     T("fixed", _cfg("Time_fixed.cfg", "fixed.cfg", Thorough=thorough), workers=w, timeout=big_to)
@@ -221,7 +239,11 @@ def model(v, tier):
         T("pinned_Conforms", _cfg("Time_pinned.cfg", "p_conf.cfg", INV="Conforms"))
         for c in CLASSES:
             T("class_" + c, _cfg("Time_pinned.cfg", "p_%s.cfg" % c, INV="NoDev_" + c))
-    for mu in (MUTANTS if tier == "thorough" else MUTANTS[:3]):
+    # the pinned conversion to an absolute deadline does violate its law (both tiers: the refutation
+    # of the pinned deviation "epoch_clock"), in its plain "past => does not block" form as well
+    T("pinned_EpochDeadline", _cfg("Time_pinned.cfg", "p_epoch.cfg", INIT="InitTLCEpoch", INV="EpochDeadline"))
+    T("pinned_PastNoBlockEpoch", _cfg("Time_pinned.cfg", "p_epoch_past.cfg", INIT="InitTLCEpoch", INV="PastNoBlockEpoch"))
+    for mu in (MUTANTS if tier == "thorough" else MUTANTS[:NQUICK_MUT]):
         T("mut_" + mu, _cfg("Time_fixed.cfg", "m_%s.cfg" % mu, Mut='"%s"' % mu))
     if tier == "thorough":   # another NSEC_PER_SEC (odd), same laws
         T("fixed_nps7", _cfg("Time_fixed.cfg", "fixed7.cfg", NPS="7"), workers=w, timeout=big_to)
@@ -254,7 +276,13 @@ def model(v, tier):
         for c in CLASSES:
             if not res["class_" + c].violated:
                 raise Broken("known class %s contains no deviation of the pinned transcription at W=8" % c)
-    for mu in (MUTANTS if tier == "thorough" else MUTANTS[:3]):
+    for name in ("pinned_EpochDeadline", "pinned_PastNoBlockEpoch"):
+        r = res[name]
+        if not r.violated:
+            raise Broken("TLC does not refute the pinned _dispatch_time_nanoseconds_since_epoch (%s): "
+                         "the class epoch_mono would be vacuous" % name)
+        v.notes.setdefault("pinned_deviations_refuted_by_tlc", []).append({"run": name, "violated": r.violated})
+    for mu in (MUTANTS if tier == "thorough" else MUTANTS[:NQUICK_MUT]):
         r = res["mut_" + mu]
         if not r.violated:
             raise Broken("spec mutant %s not refuted: the invariants are vacuous in these bounds" % mu)
@@ -279,7 +307,7 @@ def model(v, tier):
             what = "repaired" if name.startswith("fixed") else "pinned (outside the known classes)"
             v.violation("W=64: the %s algorithm (spec) violates invariant #%d of run %s; counterexample %s"
                         % (what, a["violated"], name, a["witnesses"][:1]), p)
-    for grp, cl in (("witness_time", CLASSES[:2]), ("witness_wall", CLASSES[2:])):
+    for grp, cl in (("witness_time", CLASSES[:2]), ("witness_wall", CLASSES[2:5]), ("witness_epoch", CLASSES[5:])):
         if ares[grp]["status"] != "timeout":
             missing = [c for c in cl if c not in witnesses]
             if missing:
@@ -334,6 +362,8 @@ def _short(s):
         call = "dispatch_walltime({%d,%d}, %d)" % (s["tv_sec"], s["tv_nsec"], s["delta"])
     elif s["fn"] == "dispatch_walltime_null":
         call = "dispatch_walltime(NULL, %d)" % s["delta"]
+    elif s["fn"] == "_dispatch_time_nanoseconds_since_epoch":
+        call = "_dispatch_time_nanoseconds_since_epoch(%s)" % s["base"]
     else:
         call = "_dispatch_timeout(%s)" % s["base"]
     return "%s with now(up,mono,wall)=%s returned %s, expected %s" % (call, s["now"], s["got"], s["expected"])
@@ -427,12 +457,61 @@ def binding(v, tier, seed, tables, lm, witnesses):
                                                   "eq_pinned_only", "eq_fixed_only", "clock_gettime_calls")}
     v.samples += [{"origin": "random", **{k: s[k] for k in ("fn", "base", "delta", "tv_sec", "tv_nsec", "now", "got", "expected")}}
                   for s in j["samples"][:3]]
-    for c, (cnt, s) in sorted(seen_known.items()):
+    # (v) end to end: timed dispatch_semaphore_wait on the three clocks
+    blocked_known = semwait(v, drv, listed)
+    for c in sorted(set(seen_known) | ({"epoch_mono"} if blocked_known else set())):
         kf = [x for x in known_findings(PROP)["findings"] if x["key"] == c][0]
-        v.known.append("%s (%d calls; e.g. %s)%s" % (c, cnt, _short(s),
-                       " pending_fix=" + kf["pending_fix"] if kf.get("pending_fix") else ""))
+        text = c
+        if c in seen_known:
+            cnt, s = seen_known[c]
+            text += " (%d calls; e.g. %s)" % (cnt, _short(s))
+        if c == "epoch_mono" and blocked_known:
+            text += " end to end: %s still blocked after %d s (the pinned conversion puts the deadline %s)" % (
+                "; ".join(x["call"] for x in blocked_known), SEMWAIT_BOUND_S,
+                ", ".join("%.0f years ahead" % (int(x["pinned_model_deadline_minus_wall_now_ns"]) / 3.156e16)
+                          for x in blocked_known))
+        v.known.append(text + (" pending_fix=" + kf["pending_fix"] if kf.get("pending_fix") else ""))
     v.notes["known_classes_observed"] = {c: cnt for c, (cnt, s) in seen_known.items()}
     return calls
+
+
+SEMWAIT_BOUND_S = 5
+
+
+def semwait(v, drv, listed):
+    """Driver mode `semwait`.  Returns the blocked cases that are exactly the listed known finding
+    epoch_mono (a monotonic-clock time AND the transcription of the pinned conversion predicts a
+    deadline beyond the bound); every other failing case is a violation."""
+    rc, out, err = sh([drv, "semwait"], timeout=60)
+    if rc not in (0, 2):
+        raise Broken("semwait: driver failed rc=%d: %s" % (rc, err[-1500:]))
+    try:
+        j = json.loads(out)
+    except Exception:
+        raise Broken("semwait: unparsable driver output: %s" % out[-500:])
+    if j["bound_s"] != SEMWAIT_BOUND_S or len(j["cases"]) < 6:
+        raise Broken("semwait: unexpected report %s" % out[-500:])
+    known, bad = [], []
+    for c in j["cases"]:
+        if c["verdict"] == "ok":
+            continue
+        if (c["verdict"] == "blocked" and c["class"] == "epoch_mono" and c["predicted_by_pinned_model"]
+                and "epoch_mono" in listed):
+            known.append(c)
+        else:
+            bad.append(c)
+    if bad:
+        p = save_replay(PROP, "semwait.replay", "# mode semwait\n# " + json.dumps(j) + "\n")
+        for c in bad[:4]:
+            v.violation("end to end: %s on a semaphore of value 0: %s (returned %s after %s ns; must time out, not early, "
+                        "within %d s)%s" % (c["call"], c["verdict"], c["ret"], c["took_ns"], SEMWAIT_BOUND_S,
+                                           " - the transcription of the pinned conversion predicts it (class epoch_mono), "
+                                           "but that is not (no longer) a listed known finding"
+                                           if c["predicted_by_pinned_model"] else ""), p)
+    v.traces += len(j["cases"])
+    v.notes["semaphore_wait_end_to_end"] = [
+        {k: c[k] for k in ("call", "t", "verdict", "ret", "took_ns", "predicted_by_pinned_model")} for c in j["cases"]]
+    return known
 
 
 def run(tier, seed):
@@ -442,6 +521,10 @@ def run(tier, seed):
         "x86-64 Linux: mach2nano/nano2mach are the identity; now = clock_gettime(MONOTONIC|BOOTTIME|REALTIME), interposed by the driver",
         "signed-overflow UB in time.c ((uint64_t)-delta at INT64_MIN, nsec += delta) behaves as two's-complement wrap (what the build does is observed)",
         "TLC: exhaustive at W=8 (NPS=10; thorough also NPS=7 and larger tv_nsec/now sets); Apalache: symbolic at W=64 over the full domain",
+        "the deadline law is stated for FOREVER and for every word that denotes a finite time; words that denote no finite time "
+        "(uptime words with top bits 01, the wall word 0xc000000000000000; never returned by dispatch_time/dispatch_walltime) are not judged there",
+        "end-to-end semaphore waits use the real clocks: 'still blocked after 5 s' for a wait of <= 50 ms is taken as blocking; "
+        "an early return is judged with 10 ms tolerance (the deadline is kept on CLOCK_REALTIME by sem_timedwait)",
     ]
     tables, lm, witnesses = model(v, tier)
     binding(v, tier, seed, tables, lm, witnesses)
@@ -455,6 +538,15 @@ def run(tier, seed):
 
 def replay(path, seed):
     drv = build_driver("drv_time")
+    if open(path).readline().startswith("# mode semwait"):
+        v = Verdict(PROP, "replay", seed)
+        listed = {x["key"] for x in known_findings(PROP)["findings"]}
+        semwait(v, drv, listed)
+        print(json.dumps(v.notes["semaphore_wait_end_to_end"], indent=1))
+        if v.violations:
+            print("VIOLATION property=%s replay=%s" % (PROP, path))
+            return 1
+        return 0
     rc, out, err = sh([drv, "vectors", path], timeout=300)
     print(out)
     print(err)
